@@ -5,6 +5,7 @@ the return value (processedReadPairs, strategyYields), the log handle and - deci
 after close(), parsed with a strict 4-line FASTQ reader. The oracle is an accounting over unique ids.
 """
 import os
+import collections
 import io
 import glob
 import contextlib
@@ -25,7 +26,7 @@ ASSUMPTIONS = ['input FASTQ is well formed (4 lines per record, equal seq/qual l
                'per-cell output is only combined with barcode strategies (the bulk strategy writes plain strings without a cell)']
 MIN_NONTRIVIAL = {'quick': 100, 'thorough': 2000}
 REQUIRED_MONITORS = ['hook:FastqIterator.__next__', 'hook:target.write', 'hook:reject.write', 'files:strict_parsed',
-                     'oracle:accepted_ids', 'oracle:rejected_ids', 'config:per_cell', 'config:no_reject_handle', 'config:max_read_pairs', 'config:cli']
+                     'oracle:accepted_ids', 'oracle:rejected_ids', 'config:per_cell', 'config:no_reject_handle', 'config:max_read_pairs', 'config:cli', 'config:cli_multi', 'config:cli_auto']
 SHARD_TIMEOUT = {'quick': 900, 'thorough': 5400}
 
 HDR_KINDS = ['illumina'] * 8 + ['illumina_unknown_index', 'illumina_numeric_index', 'short7', 'scmo', '3dec']
@@ -38,7 +39,7 @@ def gen_cases(tier, seed):
         for rep in range(reps):
             cases.append({'strategy': name, 'rep': rep, 'seed': seed, 'n': None})
     # the real command line (demux.py run as __main__ in a subprocess) on a generated directory with several lanes
-    for j in range(12 if tier == 'quick' else 400):
+    for j in range(24 if tier == 'quick' else 600):
         cases.append({'kind': 'cli', 'j': j, 'seed': seed})
     return cases
 
@@ -88,7 +89,23 @@ def run_cli_case(case):
         norejects = r.random() < 0.3
         scsepf = r.random() < 0.3
         out = os.path.join(d, 'out')
-        cmd = files + ['-use', name, '--y', '-o', out, '-hd', str(k)]
+        # how the strategies are selected: one named strategy, two named strategies (each read is offered to every selected
+        # strategy), or none named (the autodetection probes the head of the library and selects the best scoring one)
+        mode = r.choice(['use', 'use', 'use', 'multi', 'auto', 'auto'])
+        second = None
+        if mode == 'multi':
+            second = r.choice([n2 for n2 in LY.ALL_NAMES if n2 not in ('ILLU', 'CHROMC16U12', name) and
+                               (LY.ends_of(n2) == 'any' or (LY.ends_of(n2) == 'se') == single or (single and LY.ends_of(n2) != 'pe'))] or [None])
+            if second is None:
+                mode = 'use'
+        if mode == 'use':
+            cmd = files + ['-use', name, '--y', '-o', out, '-hd', str(k)]
+        elif mode == 'multi':
+            cmd = files + ['-use', f'{name},{second}', '--y', '-o', out, '-hd', str(k)]
+        else:
+            cmd = files + ['--y', '-o', out, '-hd', str(k), '-dsize', str(r.choice([5, 30, 2000]))]
+            if r.random() < 0.5:
+                cmd += ['-only_detect_methods', name]
         if nopt is not None:
             cmd += ['-n', str(nopt)]
         if norejects:
@@ -97,8 +114,10 @@ def run_cli_case(case):
             cmd += ['--scsepf', '-fh', str(r.randint(2, 5))]
         if single:
             cmd.append('--se')
-        cfg = {'cli': True, 'strategy': name, 'k': k, 'single_end_input': single, 'lanes': lanes, 'N': N, 'n_option': nopt, 'norejects': norejects, 'scsepf': scsepf}
+        cfg = {'cli': True, 'strategy': name, 'k': k, 'single_end_input': single, 'lanes': lanes, 'N': N, 'n_option': nopt, 'norejects': norejects, 'scsepf': scsepf,
+               'selection': mode, 'second_strategy': second, 'argv': [a for a in cmd if a not in files]}
         acc.count('config:cli')
+        acc.count('config:cli_' + mode)
         if scsepf:
             acc.count('config:per_cell')
         if norejects:
@@ -112,9 +131,36 @@ def run_cli_case(case):
         acc.evals += 1
         wit = {'config': cfg, 'library_head': [(x['id'], x['kind'], x['hk'], x['reads']) for x in all_pairs[:3]]}
         if p.returncode != 0:
-            acc.violate('cli-failed', f'demux.py exited {p.returncode}: {p.stderr[-400:]} ({cfg})', wit)
+            last = [l for l in p.stderr.strip().split('\n') if l.strip()][-1:] or ['']
+            exc = last[0].split(':')[0].strip() if ':' in last[0] else 'exit'
+            acc.violate('cli-failed:' + (exc if exc.isidentifier() else 'exit') + (':multi-strategy' if mode == 'multi' else ''), f'demux.py exited {p.returncode}: {p.stderr[-400:]} ({cfg})', wit)
             return acc
         prefix = os.path.join(out, lib)
+        import re
+        selected = [name] if mode == 'use' else [name, second]
+        if mode == 'auto':
+            msel = re.search(r'will be demultiplexed using:\n((?:\t.*\n)*)', re.sub(r'\x1b\[[0-9;]*m', '', p.stdout))
+            if msel is None:
+                raise RuntimeError(f'cannot read the selected strategies from the output of demux.py: {p.stdout[-300:]}')
+            n_selected = 0
+            for l in msel.group(1).split('\n'):
+                if not l.strip() or l.startswith('\t- ') or l.startswith('\tAll data'):
+                    break
+                n_selected += 1
+            if n_selected == 0:
+                # nothing was selected, so nothing is promised about the outputs
+                acc.count('config:cli_auto_selected_none')
+                acc.sample = {'config': cfg, 'autodetect_selected': []}
+                return acc
+            if n_selected != 1:
+                raise RuntimeError(f'autodetection selected {n_selected} strategies although one is the maximum')
+            # the short name of the selected strategy as the yield table of the log gives it (absent when it accepted nothing)
+            logtxt = open(os.path.join(prefix, 'demultiplexing.log')).read()
+            selected = re.findall(r'^(\S+)\t\d+$', logtxt.split('Strategy\tReads\n')[-1], flags=re.M) or ['<selected strategy without yield>']
+            if len(selected) > 1:
+                acc.violate('yield-counter-mismatch', f'cli autodetect: the log lists yields for {selected} although one strategy was selected ({cfg})', wit)
+                return acc
+            cfg['autodetect_selected'] = selected
         consumed_n = N if nopt is None else min(N, nopt)
         consumed = [x['id'] for x in all_pairs[:consumed_n]]
         byid = {x['id']: x for x in all_pairs}
@@ -145,7 +191,17 @@ def run_cli_case(case):
                 if None in these:
                     acc.violate(f'{what}-record-unidentifiable', f'cli {name}: {what} record cannot be traced to an input ({cfg})', wit)
                 known_ids = [t for t in these if t is not None]
-                if known_ids != sorted(known_ids) or len(set(known_ids)) != len(known_ids):
+                if len(selected) > 1:
+                    # every selected strategy is offered the read: one record per (read, strategy) at most
+                    keyed = [(t, fq.parse_out_header(x[0]).get('MX') if what == 'demultiplexed' else None) for t, x in zip(these, recs) if t is not None]
+                    per_read = collections.Counter(t for t, _ in keyed)
+                    if what == 'demultiplexed' and len(set(keyed)) != len(keyed):
+                        acc.violate('demultiplexed-written-twice', f'cli {name}: the same (read, strategy) is written twice in a {what} file ({cfg})', wit)
+                    elif max(per_read.values(), default=0) > len(selected):
+                        acc.violate(f'{what}-written-twice', f'cli {name}: a read has more {what} records than strategies were selected ({cfg})', wit)
+                    if known_ids != sorted(known_ids):
+                        acc.violate(f'{what}-order-not-preserved', f'cli {name}: ids not increasing in a {what} file: {known_ids[:10]} ({cfg})', wit)
+                elif known_ids != sorted(known_ids) or len(set(known_ids)) != len(known_ids):
                     acc.violate(f'{what}-written-twice' if len(set(known_ids)) != len(known_ids) else f'{what}-order-not-preserved',
                                 f'cli {name}: ids not strictly increasing in a {what} file: {known_ids[:10]} ({cfg})', wit)
                 for mi in range(1, len(rows_per_mate)):
@@ -159,7 +215,16 @@ def run_cli_case(case):
         acc.count('oracle:accepted_ids', len(d_ids))
         acc.count('oracle:rejected_ids', len(r_ids))
         acc.count('hook:FastqIterator.__next__', 0)
-        if set(d_ids) & set(r_ids):
+        if len(selected) > 1:
+            # per read: one outcome per selected strategy
+            cnt = collections.Counter(d_ids) + collections.Counter(r_ids)
+            if not norejects:
+                bad = [i for i in consumed if cnt[i] != len(selected)]
+                if bad:
+                    acc.violate('read-vanished' if any(cnt[i] < len(selected) for i in bad) else 'written-to-both-sinks',
+                                f'cli {name}: {len(bad)} reads do not have one outcome per selected strategy {selected}, e.g. '
+                                f'{[(i, cnt[i]) for i in bad[:5]]} ({cfg})', wit)
+        elif set(d_ids) & set(r_ids):
             acc.violate('written-to-both-sinks', f'cli {name}: ids in both outputs ({cfg})', wit)
         if not norejects:
             missing = sorted(set(consumed) - set(d_ids) - set(r_ids))
@@ -170,10 +235,9 @@ def run_cli_case(case):
         if extra:
             acc.violate('unconsumed-pair-written', f'cli {name}: ids {extra[:6]} written although -n {nopt} limits the library to its first {consumed_n} pairs ({cfg})', wit)
         log = open(os.path.join(prefix, 'demultiplexing.log')).read()
-        import re
-        counted = sum(int(x) for x in re.findall(r'^%s\t(\d+)$' % re.escape(name), log, flags=re.M))
+        counted = sum(int(x) for sname in selected for x in re.findall(r'^%s\t(\d+)$' % re.escape(sname), log, flags=re.M))
         if counted != len(d_ids):
-            acc.violate('yield-counter-mismatch', f'cli {name}: log reports {counted} reads for the strategy, {len(d_ids)} records written ({cfg})', wit)
+            acc.violate('yield-counter-mismatch', f'cli {name}: log reports {counted} reads for the selected strategies {selected}, {len(d_ids)} records written ({cfg})', wit)
         if d_ids and r_ids:
             acc.sigs.add(f"cli/{case['j']}/{sorted(cfg.items(), key=str)}")
         acc.sample = {'config': cfg, 'consumed': consumed_n, 'demultiplexed': len(d_ids), 'rejected': len(r_ids)}
